@@ -22,47 +22,55 @@ Print Assumptions C11_problems_zero.
 (* ---- Stage B ---- *)
 (* the "consumes" answer is sound: a rule visited without a problem and answered "consumes" strictly shortens the
    input whenever it succeeds (all fuels, configurations, modes, cursors) *)
-Theorem C11_consumes_sound : forall G C, table_wf G -> heads_covered G = true ->
+Theorem C11_consumes_sound : forall G C, table_wf G -> table_shape_ok G = true ->
   forall f r, (exists h stk, okh (aentry G) h stk (rl r) true) ->
   forall d c c' evs, eval G C f d r c = Res Ok c' evs -> length (rest c') < length (rest c).
 Proof. exact cons_sound. Qed.
 Print Assumptions C11_consumes_sound.
 
-(* zero problems => every run terminates.
-   FULL STATEMENT (goal):  problems G = 0 -> forall C d r c, exists f, eval G C f d r c <> Oof.
-   Proved here under three hypotheses:
-   - table_wf G: decoder widths of the atoms are those the library instantiates (true of every dumped table);
-   - cfg_plain_actions C: no change_action / change_action_and_state attachment.  NECESSARY in some form, see
-     C11_needs_acyclic_actions_refuted (two action families that switch to each other recurse for ever; that is user
-     code, not grammar).  A rank on action families would do; not done.
-   - heads_covered_term G: no node with head if_apply, until< Cond > (their trait is the trait of ANOTHER rule under
-     the own name), if_must / opt_must (trait names the rules inside must<...>, which are not sub-rules of the node),
-     until< Cond, Rule >, rep_min_max, rematch (cons_sound covers these three; the termination lemma is missing).
-     strict / star_strict have no trait (analyze<> does not compile): the model reports them as a problem, so they
-     never satisfy problems G = 0. *)
-Theorem C11_sound_partial : forall G C, table_wf G -> heads_covered_term G = true -> cfg_plain_actions C ->
+(* zero problems => every run terminates: for every rule, mode, action/control family and cursor there is a fuel with
+   which Engine.eval answers (no unbounded recursion, no iteration without progress).  ALL heads of Grammar.v are
+   covered (if_apply / until< Cond > by following the chain of copied traits, if_must / opt_must through the shape of
+   their must<...> helper nodes; strict / star_strict have no trait - analyze<> does not compile - and the model
+   reports them as a problem, so they never satisfy problems G = 0).
+   Hypotheses, each true of every table the compiler dumps and each necessary in some form:
+   - table_wf G: decoder widths of the atoms are those the library instantiates (a zero-width uint<> would be an
+     "any" atom that consumes nothing);
+   - table_shape_ok G: the second sub-rule of an if_must node is internal::must< Rules... > as the library builds it
+     (must / seq of must / success with enable_control = false, so no action can make it "fail");
+   - cfg_actions_ranked C: Action< Rule > : change_action< Other > attachments do not cycle (a bounded rank on action
+     families decreases).  Without it the statement is false: C11_needs_acyclic_actions_refuted. *)
+Theorem C11_sound : forall G C, table_wf G -> table_shape_ok G = true -> cfg_actions_ranked C ->
   problems G = 0 -> forall d r c, exists f, eval G C f d r c <> Oof.
-Proof. exact sound_partial. Qed.
-Print Assumptions C11_sound_partial.
+Proof. exact sound_ranked. Qed.
+Print Assumptions C11_sound.
+
+(* the common case: no change_action / change_action_and_state attachment at all *)
+Theorem C11_sound_plain_actions : forall G C, table_wf G -> table_shape_ok G = true -> cfg_plain_actions C ->
+  problems G = 0 -> forall d r c, exists f, eval G C f d r c <> Oof.
+Proof. exact sound_plain. Qed.
+Print Assumptions C11_sound_plain_actions.
 
 (* uniform version: one fuel bound per input length, for all rules, modes and cursors *)
-Theorem C11_sound_partial_uniform : forall G C, table_wf G -> heads_covered_term G = true -> cfg_plain_actions C ->
+Theorem C11_sound_uniform : forall G C, table_wf G -> table_shape_ok G = true ->
+  forall K rk, (forall fam, rk fam <= K) -> (forall fam r fam', switches C fam r fam' -> rk fam' < rk fam) ->
   (forall r, r < length G -> exists b, okw (aentry G) [] (rl r) b) ->
   forall L, exists F, forall r f d c, F <= f -> length (rest c) <= L -> eval G C f d r c <> Oof.
 Proof. exact terminates_upto. Qed.
-Print Assumptions C11_sound_partial_uniform.
+Print Assumptions C11_sound_uniform.
 
 (* without a hypothesis on the action attachments the statement is false of the model (and of the library: the
    recursion is in user-written Action< Rule > : change_action< Other > specialisations, invisible to analyze) *)
 Theorem C11_needs_acyclic_actions_refuted :
-  exists G C, table_wf G /\ heads_covered_term G = true /\ problems G = 0 /\
+  exists G C, table_wf G /\ table_shape_ok G = true /\ problems G = 0 /\
               exists d r c, forall f, eval G C f d r c = Oof.
 Proof. exact change_action_cycle_refutes. Qed.
 Print Assumptions C11_needs_acyclic_actions_refuted.
 
-(* the hypotheses are satisfiable: a recursive grammar with plus / star / opt, recursion behind a consuming prefix *)
+(* the hypotheses are satisfiable: a recursive grammar with sor / seq / plus / star / opt / if_must / until / if_apply,
+   recursion behind consuming prefixes *)
 Example C11_example_hypotheses :
-  table_wf ex_table /\ heads_covered_term ex_table = true /\ cfg_plain_actions plain_cfg /\ problems ex_table = 0.
+  table_wf ex_table /\ table_shape_ok ex_table = true /\ cfg_actions_ranked plain_cfg /\ problems ex_table = 0.
 Proof. exact ex_table_hyps. Qed.
 Print Assumptions C11_example_hypotheses.
 
